@@ -18,6 +18,11 @@ CLAIMED = {
    note="Trusted: Coq kernel + vm_compute; the table extractor; Pinned/ generated once from commit 236b7b1. Known findings K1/K2 are the explicit exception list TableWf.known_bad; the unrestricted statement is proved false (c18_all_items_addressable_refuted). FILES-reply naming is covered in C04's codec model.",
    technique="Rocq: regenerated tables as Gallina data, forallb obligations closed by vm_compute and lifted with forallb_forall",
    design="3/C18"),
+ "C03": dict(
+   text="Machine-checked proof over a model of replace_status_block_segment / status_block_changed / Observable: for ANY block, any patch inside it, any set of watched items, an observer registered on an item is called exactly once with (old,new) iff the decoded value changed (cb_count = 1 / = 0), the byte-range filter is sound (range miss implies equal decoded value), callbacks reach registered observers only and carry the value the installed block decodes to; the registry stays duplicate-free over any history and unwatch removes. Instantiated for all shipped items (reading total on every 1024-byte block). Correspondence: random histories of watch/unwatch/update on the real GeckoStructure and GeckoAsyncStructure with real shipped items, patches aimed at item boundaries; callbacks per operation and final block compared with the model inside Coq.",
+   note="Trusted: Coq kernel + vm_compute, table extractor, correspondence driver; observers modelled as ids; temperature callbacks mapped back to stored words by the harness (float layer in C14); exceptions raised by observers are outside the model. Closed under the global context.",
+   technique="Rocq proof by induction over item lists/histories (counting lemma) + differential history correspondence",
+   design="3/C03"),
 }
 
 REASON_PENDING = "check not built yet in this round (model and correspondence under construction; see DESIGN.md section 8)"
